@@ -1,8 +1,8 @@
 (** C11 - property theorems only. Each is closed by [exact] of a lemma proved in
     proofs/ReloadProofs.v; nothing else lives here. *)
 From EG.lib Require Import Base.
-From EG.model Require Import RL Reload.
-From EG.proofs Require Import ReloadProofs.
+From EG.model Require Import RL Reload ReloadCheck.
+From EG.proofs Require Import ReloadProofs ReloadCheckProofs.
 Open Scope Z_scope.
 
 (** For every interleaving of request steps (LoadInst, Search, GetHandler, Rewrite, XFF, Limit,
@@ -143,6 +143,104 @@ Theorem C11_registry_bad_entry_frame : forall ents snap n,
   reg_after ents (reg_healthy snap) n = reg_after ents snap n.
 Proof. exact registry_bad_entry_frame. Qed.
 Print Assumptions C11_registry_bad_entry_frame.
+
+(** * Soundness of the trace-level property checkers ([prop] of coq/model/ReloadCheck.v): what an
+    accepted observed history - of any length, whatever produced it - satisfies, position by position.
+    Non-vacuity: [pipe_prop_nonvacuous], [tc_prop_nonvacuous], [tcreal_reg_nonvacuous] in
+    proofs/ReloadCheckProofs.v (accepted non-trivial histories, and rejected near-misses). *)
+
+(** pipeline histories: no lifecycle panic; every request handled by generation [g] completes
+    without panic, invokes only filter instances created by [g] (ONE generation per request), and -
+    whatever Inherit / Close / younger generations happened in between - is observed exactly like
+    every other request of [g] (in flight during an update = completes on the old generation with
+    the result that generation gives) *)
+Theorem C11_checker_sound_pipe : forall ops obs, pipe_prop ops obs = true ->
+  List.length ops = List.length obs /\
+  (* no Init / Inherit of a pipeline generation panics *)
+  (forall i o, nth_error ops i = Some o -> (forall g, o <> PlHandle g) ->
+     exists evs, nth_error obs i = Some (PoLife false evs)) /\
+  (forall i g, nth_error ops i = Some (PlHandle g) ->
+     exists evs r, nth_error obs i = Some (PoHandle evs r) /\
+       (* the request completes: no panic *)
+       r <> PPanic /\
+       (* ONE generation per request: every filter invocation of this request is an invocation of an
+          instance created by generation [g] itself *)
+       (forall e, In e evs -> exists id n, e = EHandle id n /\ In id (nth g (pipe_owned ops obs) [])) /\
+       (* whatever updates (Inherit from [g], Close of [g], younger generations) happened before, in
+          between or after: every request handled by [g] at any position [j] of the history has the
+          very same observation - same instances visited in the same order, same result *)
+       (forall j, nth_error ops j = Some (PlHandle g) -> nth_error obs j = nth_error obs i)).
+Proof. exact pipe_prop_sound. Qed.
+Print Assumptions C11_checker_sound_pipe.
+
+(** concurrent mux sampling: every response is entirely ONE generation's answer; the initial one
+    before the first reload, the last one after the last reload returned *)
+Theorem C11_checker_sound_conc : forall c, forallb (conc_prop_one c) (cc_seen c) = true ->
+  forall k ph ri got, nth_error (cc_seen c) k = Some (ph, ri, got) ->
+    exists s, got = nth ri (nth s (cc_expect c) []) resp0 /\
+              mapper_ok (nth s (cc_gens c) gen0) got = true /\
+              (ph = 0 -> s = O) /\ (ph = 2 -> s = last_flip c) /\
+              (s = O \/ In s (cc_flips c)).
+Proof. exact conc_prop_sound. Qed.
+Print Assumptions C11_checker_sound_conc.
+
+(** TrafficController histories: other objects keep their generation (after and INSIDE every
+    operation), the name being updated resolves to the previous generation until the new one is
+    published and to the returned one afterwards (never to nothing), an unchanged Apply creates no
+    new generation, a request gets the live generation *)
+Theorem C11_checker_sound_tc : forall ops obs, tc_prop_all [] [] ops obs = true ->
+  List.length ops = List.length obs /\
+  forall i op o, nth_error ops i = Some op -> nth_error obs i = Some o ->
+    let prev := fst (tc_ctx [] [] obs i) in
+    let tags := snd (tc_ctx [] [] obs i) in
+    (* the operation does not panic, and the next operation starts from what this one left *)
+    to_panic o = false /\ fst (tc_ctx [] [] obs (S i)) = to_snap o /\
+    (* objects not named in the operation keep their generation (instance): after it ... *)
+    (forall k, tc_target op = Some k -> forall a, sent_key_eqb a k = false -> (In a prev <-> In a (to_snap o))) /\
+    (forall ns, op = TClean ns -> forall a, sent_ns a <> ns -> (In a prev <-> In a (to_snap o))) /\
+    (* ... and at every instant INSIDE it (seen from its lifecycle callbacks) *)
+    (forall k m, tc_target op = Some k -> In m (to_mid o) ->
+       (forall a, sent_key_eqb a k = false -> (In a prev <-> In a m)) /\
+       (* there is no instant during a create-over / update / apply at which the name resolves to
+          nothing: it resolves to the PREVIOUS generation until the new one is published *)
+       (is_put op -> forall id, find_ent prev k = Some id -> find_ent m k = Some id)) /\
+    (* ... and once a create / update / changed apply has returned successfully the name resolves to
+       the generation it returned *)
+    (forall k, tc_target op = Some k -> is_put op -> to_err o = false ->
+       (exists id, find_ent prev k = Some id /\ (exists tag c ns n, op = TApply c ns n tag /\ zlookup id tags = Some tag)) \/
+       find_ent (to_snap o) k = Some (to_ret o)) /\
+    (* applying an unchanged config creates no new generation: no Init, no Inherit, no Close, the live
+       instance is returned and every entry stays *)
+    (forall c ns n tag id, op = TApply c ns n tag -> find_ent prev (c, ns, n) = Some id -> zlookup id tags = Some tag ->
+       to_err o = false /\ to_ret o = id /\ to_evs o = [] /\ forall a, In a prev <-> In a (to_snap o)) /\
+    (* a request (GetHandler) is served by the live generation - after an update has returned that is
+       the new one - and fails exactly when the name is not there *)
+    (forall ns n, op = TGet ns n ->
+       (forall id, find_ent prev (CP, ns, n) = Some id -> to_err o = false /\ to_ret o = id) /\
+       (find_ent prev (CP, ns, n) = None -> to_err o = true)).
+Proof. exact tc_prop_sound. Qed.
+Print Assumptions C11_checker_sound_tc.
+
+Theorem C11_checker_sound_tcreal : forall ops obs live, tcreal_prop live ops obs = true ->
+  List.length ops = List.length obs /\
+  forall i n sp err ret nev, nth_error ops i = Some (n, sp) -> nth_error obs i = Some (err, ret, nev) ->
+    err = false /\
+    match slookup n (tcreal_ctx live ops obs i) with
+    | Some (sp0, id0) => (sp0 = sp -> nev = 0 /\ ret = id0) /\ (sp0 <> sp -> nev <> 0 /\ ret <> id0)
+    | None => nev <> 0
+    end.
+Proof. exact tcreal_prop_sound. Qed.
+Print Assumptions C11_checker_sound_tcreal.
+
+Theorem C11_checker_sound_reg : forall rs tainted, reg_prop tainted rs = true ->
+  forall i r, nth_error rs i = Some r ->
+    rr_panic r = false /\
+    forall n, ~ In n (reg_tainted tainted rs i) ->
+      (forall v, In (n, v) (rr_create r) <-> In (n, v) (rr_tcreate r)) /\
+      (forall v, In (n, v) (rr_update r) <-> In (n, v) (rr_tupdate r)) /\
+      (In n (rr_delete r) <-> In n (rr_tdelete r)).
+Proof. exact reg_prop_sound. Qed.
+Print Assumptions C11_checker_sound_reg.
 
 (** non-vacuity: see [mux_nonvacuous], [tc_nonvacuous], [w_spec_ok] and the refutation witnesses in
     proofs/ReloadProofs.v *)
